@@ -5,9 +5,11 @@
 (* and the severity / Enabled tables over the probe levels.                    *)
 (*                                                                             *)
 (* Operations are written compactly: <<1, h, k>> = h.WithAttrs(batch of k),    *)
-(* <<2, h, level, m>> = h.Handle(record with m own attributes),                *)
+(* <<4, h, level, size class, c1, .., cn>> = a new record built by n AddAttrs  *)
+(* calls of c1..cn attributes and handled by h, <<5, h, r>> = the value of     *)
+(* record r (numbered in order of creation) handled again by h,                *)
 (* <<3, h>> = h.WithGroup(...) (panics).  The ids of a batch are the last k    *)
-(* entries of the new handler's attrs, those of a record the first m entries   *)
+(* entries of the new handler's attrs, those of a record the first n entries   *)
 (* of its predicted line.                                                      *)
 (*                                                                             *)
 (* EmitAll = TRUE writes one vector per state (every prefix of every path);    *)
@@ -32,10 +34,14 @@ GNext ==
          \/ \E k \in Batches :
               /\ Derive(h, k)
               /\ hist' = Append(hist, <<1, h, k>>)
-         \/ /\ Len(out) < MaxLogs
-            /\ \E lv \in Levels, m \in RecSizes :
-                 /\ Log(h, lv, m)
-                 /\ hist' = Append(hist, <<2, h, lv, m>>)
+         \/ /\ Len(recs) < MaxLogs
+            /\ \E lv \in Levels, sz \in Sizes, sh \in Shapes :
+                 /\ LogNew(h, lv, sz, sh)
+                 /\ hist' = Append(hist, <<4, h, lv, sz>> \o sh)
+         \/ /\ RelogsSoFar < MaxRelogs
+            /\ \E r \in 1..Len(recs) :
+                 /\ ReLog(h, r)
+                 /\ hist' = Append(hist, <<5, h, r>>)
          \/ /\ ngroups < MaxGroups
             /\ WithGroup(h)
             /\ hist' = Append(hist, <<3, h>>)
@@ -45,9 +51,9 @@ Vector == [thr   |-> thr,
            ops   |-> hist,
            attrs |-> attrs,
            out   |-> [i \in 1..Len(out) |->
-                        [h |-> out[i].h, lv |-> out[i].lv,
-                         err |-> Bit(ExpectedLine(out[i].h, out[i].lv, out[i].rec).sev = "ERROR"),
-                         attrs |-> ExpectedLine(out[i].h, out[i].lv, out[i].rec).attrs]],
+                        [h |-> out[i].h, lv |-> out[i].lv, r |-> out[i].r, n |-> Len(out[i].rec),
+                         err |-> Bit(ExpectedLine(out[i].h, out[i].lv, out[i].r, out[i].rec).sev = "ERROR"),
+                         attrs |-> ExpectedLine(out[i].h, out[i].lv, out[i].r, out[i].rec).attrs]],
            lvls  |-> ProbeSeq,
            err   |-> [i \in 1..Len(ProbeSeq) |-> Bit(Severity(ProbeSeq[i]) = "ERROR")],
            en    |-> [i \in 1..Len(ProbeSeq) |-> Bit(IsEnabled(ProbeSeq[i]))]]
